@@ -89,3 +89,27 @@ Proof.
   - repeat constructor; try (vm_compute; reflexivity).
   - split; [|exact I]. split; [repeat split; reflexivity|]. repeat constructor.
 Qed.
+
+(* the same trace recorded with the argument dict and the TypedDict's fields in another insertion order *)
+Definition ex_trace_perm : trace :=
+  Trace 1 [("payload", TTypedDict [("a", TType (TCls 16)); ("b", TList (TCls 17))] [("z", TTuple [])]); ("self", TCls 16)]
+        (Some (TCls 1)) None.
+
+Lemma ex_trace_perm_ok : ok_trace ex_cn ex_fn ex_ev ex_hd ex_trace_perm.
+Proof.
+  split; [reflexivity|]. split; [reflexivity|]. split.
+  - repeat constructor; try (vm_compute; reflexivity).
+  - split; [|exact I]. split; [repeat split; reflexivity|]. repeat constructor.
+Qed.
+
+Lemma ex_trace_perm_rel : trace_perm ex_trace ex_trace_perm.
+Proof.
+  split; [reflexivity|]. split.
+  - exists [("self", TCls 16); ("payload", TTypedDict [("a", TType (TCls 16)); ("b", TList (TCls 17))] [("z", TTuple [])])].
+    split; [|apply Permutation.perm_swap].
+    cbn [frelP ex_trace tr_args fst snd]. repeat split.
+    unfold ex_td. apply fields_perm_td.
+    exists [("b", TList (TCls 17)); ("a", TType (TCls 16))], [("z", TTuple [])].
+    repeat split; try reflexivity; try apply Permutation.perm_swap; try apply Permutation.Permutation_refl.
+  - split; [reflexivity|exact I].
+Qed.
